@@ -75,4 +75,18 @@ PROPS = {
                               "lookup_refused": 3.0, "knots:extreme": 0.05}},
         assumptions=["a watchdog hit counts only when it reproduces twice more"],
     ),
+    "C06": dict(
+        level="exploration",
+        level_text="Three-directional generated check: an independent byte-level FITS writer feeds the library reader (every getter compared with the spec), the library writer's bytes are parsed by an independent reader against the documented layout, and the library round trip must compare equal, keep every getter and evaluate bit-identically; memory and disk back ends, legacy variants; plus the ten shipped files against committed digests. Self round trips alone cannot see symmetric writer/reader mistakes; the independent codec can.",
+        level_note="Trusts harness/common/fits_indep.hpp (FITS subset codec written from the standard, shares no code with cfitsio) and the committed digests in golden/shipped.digest computed on the pinned tree.",
+        technique="property-based round-trip and differential testing (rapidcheck) against an independent FITS codec",
+        units=[U("c06_fits", "c06_fits.cpp", quick=16000, thorough=1500000, names=["roundtrip", "shipped"])],
+        rule="tables of 1..9 dims with pairwise different axis lengths, orders 0..5, coefficient palette plus special values (denormal, FLT_MAX, -0, +-inf, "
+             "quiet/signalling NaN payloads), non-default extents, non-zero periods, 0..30 auxiliary keys from the accepted alphabet (short and HIERARCH), "
+             "legacy variants (single ORDER card, no EXTENTS, no PERIODn), memory or disk on either side. Non-trivial: ndim>=2 with unequal axes, special "
+             "values, aux keys or a legacy variant; distinct = hash(spec, aux count, back ends). The 'shipped' sub-property re-reads all ten files of test/test_data.",
+        essential={"roundtrip": {"coeff:special_values": 0.3, "aux:present": 0.3, "extents:nondefault": 0.3, "periods:nonzero": 0.3, "legacy:no_EXTENTS": 0.05,
+                                 "legacy:single_ORDER": 0.02, "in:disk": 0.1, "out:disk": 0.1}, "shipped": {"shipped_file_checked": 10.0}},
+        assumptions=["temp files live under /verif/build/tmp and are unlinked immediately"],
+    ),
 }
